@@ -39,18 +39,20 @@ structure Opts where
 
 def dashMib : Str := ['-', 'm', 'i', 'b']
 
-/-- candidate base names, before extensions; `none` = the code raises IndexError (`filenames[-1]` of
-an empty list: all three matching switches off with fuzzy matching on) -/
+/-- the spellings switched on, in the order the code lists them -/
+def spellings (o : Opts) (name : Str) : List Str :=
+  (if o.original then [name] else []) ++ (if o.uppercase then [upper name] else []) ++
+  (if o.lowcase then [lower name] else [])
+
+/-- candidate base names, before extensions.  With fuzzy matching the `-mib` part is looked for in the lower-cased
+name, whatever spellings are switched on (since repair 634cb10; before it, in the last spelling switched on, which
+raised IndexError when none was).  The result is kept an `Option` for the callers; it is always `some`. -/
 def baseNames (o : Opts) (name : Str) : Option (List Str) :=
-  let fs := (if o.original then [name] else []) ++ (if o.uppercase then [upper name] else []) ++
-            (if o.lowcase then [lower name] else [])
+  let fs := spellings o name
   if o.fuzzy then
-    match fs.getLast? with
-    | none => none
-    | some last =>
-      match find last dashMib with
-      | some part => some (fs ++ fs.map (fun x => x.take part))
-      | none => some (fs ++ [upper (name ++ dashMib), lower (name ++ dashMib)])
+    match find (lower name) dashMib with
+    | some part => some (fs ++ fs.map (fun x => x.take part))
+    | none => some (fs ++ [upper (name ++ dashMib), lower (name ++ dashMib)])
   else some fs
 
 /-- `getMibVariants`: (alias, file name) pairs in the order the code tries them -/
